@@ -524,4 +524,25 @@ contract(SCH + "._Search", params=dict(self=SCHT, edb=EDBT, tk=TOKT), returns=RE
                                ("div_lower", ["len(gDB[gq]) + self.config.param_B - 1", "1", "self.config.param_B"]),
                                ("blocks_mono2", ["gDB", "kwpos(gDB, gq) + 1", "len(gDB)", "self.config.param_B"])])},
          unfold_only=["pt_repr", "pt_inv", "a_inv", "valid_db", "ne_db", "part", "is_enc", "dec", "dec_ok", "ipay", "cdivf", "blocks_upto", "kwpos"],
-         no_runtime=True, props=["C01", "C02"])
+         depth=2, no_runtime=True, props=["C01", "C02"])
+
+inline("toolkit/prf/__init__.py:get_prf_implementation", "toolkit/symmetric_encryption/__init__.py:get_symmetric_encryption_implementation",
+       "schemes/interface/config.py:SSEConfig.__init__", "schemes/interface/config.py:SSEConfig.check_param_exist",
+       "schemes/interface/inverted_index_sse.py:InvertedIndexSSE.__init__")
+for m_ in ("KeyGen", "EDBSetup", "TokenGen", "Search"):
+    inline(SCH + "." + m_)
+inline(EDB + ".__init__")
+# C01 / C02 for PiPtr: verified client code over the contracts of _Enc, _Trap, _Search (public wrappers inlined)
+contract("ghost:piptr_search_correct", modifies_ghost=["rng_n", "sample0"], params=dict(sse=SCHT, key=KEYT, database=DBT, keyword=TBytes), returns=REST,
+         body="""def piptr_search_correct(sse, key, database, keyword):
+    gK = key.K
+    gDB = database
+    gq = keyword
+    edb = sse.EDBSetup(key, database)
+    tk = sse.TokenGen(key, keyword)
+    return sse.Search(edb, tk)
+""",
+         ghost_scope=S + "construction.py",
+         requires=[r.replace("self.", "sse.") for r in VALID_CFG] + ["len(key.K) == sse.config.param_lambda",
+                                                                     "valid_db(database, sse.config.param_identifier_size)", "ne_db(database)"],
+         ensures=["result.result == (database[keyword] if keyword in database else [])"], props=["C01", "C02"])
